@@ -660,11 +660,10 @@ impl Sut for SVClock {
         }
     }
     fn obs(&self) -> Obs {
-        let mut c = Clk::new();
-        for a in 0..8u8 {
-            let n = self.0.get(&a);
-            if n > 0 {
-                c.insert(a, n);
+        let c = clk(&self.0);
+        for (a, n) in c.iter() {
+            if self.0.get(a) != *n {
+                return Obs::Panic(format!("VClock::get({}) = {} but iter() yields {}", a, self.0.get(a), n));
             }
         }
         Obs::Clock(c)
@@ -874,6 +873,7 @@ impl Sut for SList {
             notes.push("iter() disagrees with read()".to_string());
         }
         let mut prev = None;
+        let n = vals.len();
         for (i, (id, v)) in self.0.iter_entries().enumerate() {
             if vals.get(i) != Some(v) {
                 notes.push(format!("iter_entries()[{}] disagrees with read()", i));
@@ -884,6 +884,10 @@ impl Sut for SList {
                 }
             }
             prev = Some(id);
+            // the per-element look-ups are linear each: on long lists check both ends and a stride
+            if n > 24 && i >= 4 && i + 4 < n && i % 9 != 0 {
+                continue;
+            }
             if self.0.position(i) != Some(v) {
                 notes.push(format!("position({}) disagrees with read()", i));
             }
@@ -985,11 +989,12 @@ impl Sut for SGList {
             notes.push("len()/is_empty() disagree with read()".to_string());
         }
         let mut prev = None;
+        let n = vals.len();
         for (i, id) in self.0.iter().enumerate() {
             if vals.get(i) != Some(id.value()) {
                 notes.push(format!("iter()[{}] disagrees with read()", i));
             }
-            if self.0.get(i) != Some(id) {
+            if !(n > 24 && i >= 4 && i + 4 < n && i % 9 != 0) && self.0.get(i) != Some(id) {
                 notes.push(format!("get({}) disagrees with iter()", i));
             }
             if let Some(p) = prev {
